@@ -98,6 +98,18 @@ def space(sid):
         raise KeyError(sid)
     return ns
 
+def unit_system_of(sid):
+    """the unit system the namespace `sid` was built for (call after space(sid))"""
+    if sid in ("pc", "top", "fresh"):
+        return unit_system_registry["mks"]
+    if sid.startswith("sys:"):
+        return unit_system_registry[sid[4:]]
+    if sid == "custom-registry":
+        return unit_system_registry["imperial"]
+    if sid.startswith("custom:"):
+        return unit_system_registry["c15_" + "_".join(sid[7:].split(","))]
+    raise KeyError(sid)
+
 class SI(dict):
     """view of a namespace with every entry converted to MKS on access: the defining relations are
     evaluated on SI magnitudes, so that exotic base units (kpc, Mearth, hr …) cannot push an
@@ -396,6 +408,12 @@ def run(tier, seed):
             and str(u.expr) in ("C", "A", "T", "V", "Ω")
 
     pc_ns = live.get("pc", {})
+    has_current = {}
+    for sid in live:
+        try:
+            has_current[sid] = env["unit_system_of"](sid).units_map[D.current_mks] is not None
+        except Exception as e:  # noqa: BLE001
+            chk.disagree("unit_system_of", f"{sid}: {e!r}")
     for sid, ns in live.items():
         kind = sid if not sid.startswith("custom:") else "custom"
         want_keys = set()
@@ -430,6 +448,16 @@ def run(tier, seed):
                     if g in ("cgs", "hcgs") and D.current_mks in q.units.dimensions.free_symbols:
                         chk.fail(f"cgs-guise-not-cgs|{cname}", f"{sid}: {k} = {q!r} still carries the MKS current dimension",
                                  {"python": snippet(f"ns = space({sid!r})\nassert D.current_mks not in ns[{k!r}].units.dimensions.free_symbols, ns[{k!r}]\n")})
+                    if g in ("plain", "mks", "hmks") and has_current.get(sid, True) and q.units.dimensions != table_q.units.dimensions:
+                        # "equal as quantities" admits the Gaussian counterpart only where SI is not available: in a
+                        # namespace built on a unit system WITH a current unit the constant must keep the dimension
+                        # of the default one (charge in A*s-like units, not statC)
+                        chk.fail(f"dimension|{kind}|{cname}|{g}",
+                                 f"{sid}: {k} = {q!r} has dimension {q.units.dimensions} but the table row {cname} is in {unit_name} "
+                                 f"and the unit system has an MKS current unit",
+                                 {"python": snippet(f"ns = space({sid!r})\nS = unit_system_of({sid!r})\nq = ns[{k!r}]\n"
+                                                    f"assert S.units_map[D.current_mks] is None or "
+                                                    f"q.units.dimensions == Unit(TABLE[{cname!r}][1]).dimensions, (q, S.units_map[D.current_mks])\n")})
                     if not same(q, table_q):
                         chk.fail(f"guise|{kind}|{cname}|{g}",
                                  f"{sid}: {k} = {q!r} is not the quantity of the table row {cname} = {value!r} {unit_name}",
